@@ -25,14 +25,14 @@ def reg(p: PropSpec) -> None:
 
 reg(P(
     "C08", "A schema is accepted iff it satisfies the documented constraints",
-    [("C1", ALL), ("A8", ALL), ("A7", ALL), ("B3", ALL), ("B5", ALL), ("A1", {"parse"}), ("B1", ALL), ("B2", ALL), ("B6", ALL), ("A12", ALL), ("A5", {"parse-guard", "fatal", "lang-required"}), ("C9", ALL)],
+    [("C1", ALL), ("A8", ALL), ("A7", ALL), ("B3", ALL), ("B5", ALL), ("A1", {"parse"}), ("B1", ALL), ("B2", ALL), ("B6", ALL), ("A12", ALL), ("A5", {"parse-guard", "fatal", "lang-required"}), ("C9", ALL), ("V1", {"kinds"})],
     "every catalogue entry has a correctly bounded, wired, correctly typed check (C1 intervals and predicates; A8 validator wiring and freeze chain; A7 live duplicate tables); the grammar admits in each scope only what is allowed or explicitly rejected (B3); references resolve eagerly and only to earlier definitions of the right kind (B5, C1 kind checks); rejection is a ParserError (A1/B1/B6) citing file and line (B2) with non-zero exit and no render (A5).",
     "the acceptance function is not executed; constraints are compared with the catalogue of the property statement, not discovered.",
 ))
 
 reg(P(
     "C09", "Compilation is total: any input yields success or a parser error",
-    [("A1", ALL), ("A2", ALL), ("B1", ALL), ("B6", ALL), ("A12", ALL), ("A13", ALL), ("A8", {"pairing", "filepath"}), ("C9", ALL), ("T1", ALL), ("C1", {"imports"})],
+    [("A1", ALL), ("A2", ALL), ("B1", ALL), ("B6", ALL), ("A12", ALL), ("A13", ALL), ("A8", {"pairing", "filepath"}), ("C9", ALL), ("T1", ALL), ("C1", {"imports"}), ("V1", {"kinds"})],
     "no exception class other than ParserError/OSError escapes parse(), none escapes lint(), none other than RendererError/OSError escapes render() for the four renderers (A1 over an RTA call graph with handler contexts; discharges by dominating guards, exhaustive dispatch A2, index/grammar consistency B1, typestate A12/A13, option table C9, and the triaged invariants of beliefs.json); p_error/t_error always raise (B6); every loop has a strictly advancing counter or ranges over a finite collection, recursion descends the acyclic type graph, and the import recursion is cut by a cycle check that compares files with samefile() before the child is parsed (T1, C1 imports part).",
     "RecursionError / memory / time on pathologically large accepted schemas; behaviour inside ply; UnicodeDecodeError while reading a file (input is text).",
 ))
@@ -53,7 +53,7 @@ reg(P(
 
 reg(P(
     "C17", "-O and -F restrict what is generated without altering it",
-    [("A9", ALL), ("B3", {"extensible-marker"}), ("A5", {"filter-needs-O", "parse-guard", "fatal"}), ("F4", ALL)],
+    [("A9", ALL), ("B3", {"extensible-marker"}), ("A5", {"filter-needs-O", "parse-guard", "fatal"}), ("F4", ALL), ("A7", {"key"})],
     "traditional mode reaches every Parser including import children; the extensible marker is derivable only through the guarded production; language capability is checked at renderer construction; -F without -O hits fatal before render; the -F list only selects encoder/decoder function blocks with one shared predicate and never flows into a template; data-structure dispatchers ignore it (F4).",
     "textual identity of two compiler runs is not observed; it follows from F4's non-interference only as far as the template abstraction goes.",
 ))
@@ -74,7 +74,7 @@ reg(P(
 
 reg(P(
     "C01", "Python encoder emits exactly the specified bit layout",
-    [("D5", {"ast", "py", "common"}), ("A4", {"ast", "py"}), ("D1", {"py"}), ("E1", {"py"}), ("C3", {"py", "ast"}), ("D3", {"py"}), ("D6", {"py", "py-array-default"}), ("D7", {"py"}), ("C4", {"py"}), ("R1", {"py"})],
+    [("D5", {"ast", "py", "common"}), ("A4", {"ast", "py"}), ("D1", {"py"}), ("E1", {"py"}), ("C3", {"py", "ast"}), ("D3", {"py"}), ("D6", {"py", "py-array-default"}), ("D7", {"py"}), ("C4", {"py"}), ("R1", {"py"}), ("B5", ALL), ("V1", {"reference"})],
     "size arithmetic equals the specification and BYTES_LENGTH / the encode allocation come from Message.nbytes() (D5); the processor list and dataclass fields are emitted in ascending field-number order (A4); the single-chunk encoder of bp.py equals the layout rule's normal form - stream byte i div 8, value byte 8*(j div 8), shift j mod 8 - i mod 8, mask 2^(i mod 8 + c) - 2^(i mod 8), OR store (D1) - and the chunk size satisfies 1 <= c <= 8, fits both bytes and never exceeds the field (E1); prefix: 16 bits, written before the children, carrying nbits/capacity (C3, D3); generated getters return (field >> rshift) for the field with that number and array depth (D6); alias/enum processors only delegate (D7); generator/runtime constructor arguments agree positionally (C4).",
     "that the composition of these yields the exact bytes for every schema and value (nothing is executed; no proof of the whole encoder).",
 ))
@@ -88,14 +88,14 @@ reg(P(
 
 reg(P(
     "C05", "Forward compatibility: an older schema decodes data from an extended one",
-    [("D3", ALL), ("C3", ALL), ("EC3", ALL), ("C1", {"prefix-range"})],
+    [("D3", ALL), ("C3", ALL), ("EC3", ALL), ("C1", {"prefix-range"}), ("A9", ALL), ("B3", {"extensible-marker"})],
     "in the six extensible processors (message and array x Python/Go/C): the start position is read before the prefix, the prefix is written on encode and read on decode under `extensible`, children run in order, the cursor moves only when decoding, every forward move passes the guard, and the skip target is start + sender-bits for messages and start + 16 + sender-capacity x bits-per-element for arrays (D3, EC3); what the sender writes (nbits / capacity, 16 bits, scratch field number 1) is what the receiver reads (C3); the compiler rejects every message larger than 65535 bits and every array capacity above 65535, the largest numbers the 16-bit prefix can carry (C1 prefix-range).",
     "decoded values; only the position arithmetic is decided.",
 ))
 
 reg(P(
     "C15", "Generated API names follow the documented scheme",
-    [("C5", ALL)],
+    [("C5", ALL), ("A7", {"key"})],
     "each effective entry of the three case_style_mapping() tables lies in the set the scheme allows for that (language, kind): identity on style-guide names, except the fixed transformations C message -> pascal, Python message -> keep, Go struct field -> pascal; style names resolve to the right converter functions; nested names are prefix + enclosing names outermost first + own name; Encode/Decode/Json/BYTES_LENGTH_/BYTES_LENGTH/encode/decode/Size/JSON-tag templates; output file name and extensions; the C name prefix flows only into the definition-name builder.",
     "behaviour of pascal_case / snake_case / upper_case on arbitrary words (assumed: keep is the identity, pascal on PascalCase, snake on snake_case, upper and (snake, upper) on UPPER_SNAKE).",
     ["keep_case/pascal_case/snake_case/upper_case are the identity on names of their own style"],
@@ -110,42 +110,42 @@ reg(P(
 
 reg(P(
     "C03", "C standard mode writes/reads the same bytes as the specification and Python",
-    [("A4", {"c", "ast"}), ("CC4", ALL), ("A2", {"c", "common"}), ("CA2", ALL), ("C2", {"generator", "c"}), ("CC2", ALL), ("EC3", ALL), ("CD4", ALL), ("EC1", ALL), ("EC2", ALL), ("D5", {"ast", "c", "common"}), ("C3", {"ast"}), ("R1", {"c"})],
+    [("A4", {"c", "ast"}), ("CC4", ALL), ("A2", {"c", "common"}), ("CA2", ALL), ("C2", {"generator", "c"}), ("CC2", ALL), ("EC3", ALL), ("CD4", ALL), ("EC1", ALL), ("EC2", ALL), ("D5", {"ast", "c", "common"}), ("C3", {"ast"}), ("R1", {"c"}), ("B5", ALL), ("V1", {"reference"})],
     "generator side: descriptor array in ascending field-number order (A4); format_bp_* templates, constructor macros and struct members agree positionally, sizes are sizeof of the same node's C type, the k-th descriptor carries address, type and name of the same field (CC4); dispatch chains cover their domains (A2). Runtime side, both build variants: every flag switch covers the flags its callers can pass and routes them to the right routine (CA2); storage partitions agree with the generator (C2, CC2); extensible processors, prefix coders, cursor advance, encode/decode orientation of the copier calls (EC3); sign extension cases (CD4); bit copier: on all paths x all 64 (si, di): 1 <= c <= n, word loads/stores inside the field's bytes, `=` stores only at di = 0, partial stores masked to c bits (EC1); batch path only for storage-sized integer elements (EC2).",
     "bit-exactness of the C partial-byte expressions beyond the mask form; byte-for-byte equality with Python; compiler optimisation levels.",
 ))
 
 reg(P(
     "C04", "Optimization mode (-O) changes how, never what, is encoded (C and Go)",
-    [("D1", {"planner"}), ("E1", {"planner"}), ("A4", {"planner", "ast"}), ("A2", {"common"}), ("D2", ALL), ("D4", {"c", "go", "planner"}), ("F5", ALL), ("T1", {"while"})],
+    [("D1", {"planner"}), ("E1", {"planner"}), ("A4", {"planner", "ast"}), ("A2", {"common"}), ("D2", ALL), ("D4", {"c", "go", "planner"}), ("F5", ALL), ("T1", {"while"}), ("A7", {"key"})],
     "the compile-time planner computes (si, fi, shift, mask, r) equal to the specification normal form and advances both cursors by a chunk with 1 <= c <= 8 fitting both bytes (D1, E1 on formatter.py); it walks sorted fields, range(cap), alias -> target with one cursor (A4, A2); each C little-endian, C big-endian and Go item template puts every planner value into the hole with that role, uses `=` only at r == 0, narrows after the right shift and widens before the left shift (D2); sign hooks for every width narrower than storage, decode only (D4); --endian selects le()/be() under #ifndef BP_BIG_ENDIAN / #else / #endif (F5).",
     "equivalence of byte-pointer and value-shift forms at bit level (rests on the mask argument, stated not mechanised); refusal of extensible schemas is C17.",
 ))
 
 reg(P(
     "C06", "The wire is little-endian whatever the host byte order",
-    [("EC4", ALL), ("CC2", {"c-be"}), ("EC2", {"c-be"}), ("EC1", {"c-be"}), ("EC3", {"c"}), ("D2", {"c-be", "c"}), ("F5", ALL)],
+    [("EC4", ALL), ("CC2", {"c-be"}), ("EC2", {"c-be"}), ("EC1", {"c-be"}), ("EC3", {"c"}), ("D2", {"c-be", "c"}), ("F5", ALL), ("A7", {"key"})],
     "in the -DBP_BIG_ENDIAN AST no pointer to wire or staging bytes is cast to a multi-byte integer pointer (positive control: the little-endian copier has such casts); staging reverses exactly BpBaseTypeStorageSize(nbits) bytes before the copy on encode and after it on decode, through a zeroed 8-byte buffer (EC4); that size partition equals the generator's storage (CC2); the array batch condition is the literal 0 (EC2); the copier's remaining paths satisfy the same obligations (EC1); generated big-endian items use value shifts on the field's unsigned type, never byte pointers (D2); the #else branch holds them (F5).",
     "that staged bytes equal the little-endian path's bytes for every value; host detection macros.",
 ))
 
 reg(P(
     "C07", "Encoding touches exactly its bytes, and each field exactly its bits",
-    [("D5", ALL), ("E1", ALL), ("D1", ALL), ("EC1", ALL), ("EC2", ALL), ("D2", ALL), ("C2", ALL)],
+    [("D5", ALL), ("E1", ALL), ("D1", ALL), ("EC1", ALL), ("EC2", ALL), ("D2", ALL), ("C2", ALL), ("F5", {"memset"})],
     "one source (Message.nbytes(), ceil form) for the size constant in C, Go and Python and for every encode allocation (D5); every chunk is at most the field's remaining bits and fits the byte (E1), every stored chunk is `(...) & mask` with the specification mask (D1, D2); in C unmasked word/byte paths never carry more than the remaining bits and word stores/loads stay inside ceil(n/8) bytes, partial stores are masked (EC1); the batch copy covers exactly nbits * cap bits of storage-sized integers (EC2).",
     "sanitizer-observable behaviour; out-of-range Python integers beyond the masking argument.",
 ))
 
 reg(P(
     "C10", "Every accepted schema yields code the target toolchains accept (narrow: necessary structural conditions)",
-    [("F2", ALL), ("F1", ALL), ("A2", ALL), ("A1", {"render"}), ("A13", ALL), ("F6", ALL), ("F6b", ALL), ("F7", ALL), ("F8", ALL), ("C5", {"common", "owner", "qualifier", "binding"}), ("F9", ALL)],
+    [("F2", ALL), ("F1", ALL), ("A2", ALL), ("A1", {"render"}), ("A13", ALL), ("F6", ALL), ("F6b", ALL), ("F7", ALL), ("F8", ALL), ("C5", {"common", "owner", "qualifier", "binding"}), ("F9", ALL), ("F10", ALL), ("A7", {"key"})],
     "definitions are emitted children first in declaration order for the bound proto (F2); each block class pushes balanced brackets and #if/#endif on every path (F1); rendering raises no internal error: exhaustive dispatch, abstract coverage, render-context and push_string discipline (A2, A1 render part, A13); internal helper-name templates are uniquely decodable (F6); include/import statements name the file the compiler generates (F7).",
     "whether gcc, g++, CPython or Go accept the output (that needs the output); struct layout equality in C++; reserved words.",
 ))
 
 reg(P(
     "C12", "The wire format depends only on field numbers and resolved types",
-    [("F3", ALL), ("A4", ALL), ("D5", {"ast"}), ("D7", ALL), ("EC3", ALL), ("V1", {"reference"}), ("D2", ALL), ("D6", {"py", "go"}), ("B4", ALL), ("R1", ALL), ("D3", ALL)],
+    [("F3", ALL), ("A4", ALL), ("D5", {"ast"}), ("D7", ALL), ("EC3", ALL), ("V1", {"reference"}), ("D2", ALL), ("D6", {"py", "go"}), ("B4", ALL), ("R1", ALL), ("D3", ALL), ("A7", {"key"})],
     "layout-bearing computations (size arithmetic, planner, processor/descriptor constructors) read only number / cap / extensible / type attributes, never names, comments, positions or option values; comment / newline / semicolon actions build nothing (F3); declaration order is erased by sorting on the integer field number at every order-sensitive site (A4); Alias.nbits is the target's and alias processors only delegate in all three runtimes (D5, D7, EC3); the resolved definition object is what a field stores, wherever it was declared (V1); alias transparency of the generators: for every type shape reached through an alias the optimization-mode statements and the generated accessors are the ones of the aliased type, with the alias name only where the target language needs a conversion (D2 scenarios Alias->leaf incl. the unsigned working type, D6 shapes alias(...)); a literal and a constant expression of equal value are the same to the rest of the compiler because operator precedence and associativity are the usual ones (B4); the runtimes keep nothing between fields or calls that could make the bytes depend on the numbers themselves rather than their order: no module / package / file-scope state is written (R1) and every field is processed with a fresh indexer built from its own number (D3).",
     "byte equality of two compilations.",
 ))
